@@ -28,7 +28,7 @@ def parse_out(line):
 
 
 def _is_req(op):
-    return op.startswith("REQ ") or op.startswith("TREQ ")
+    return op.startswith("REQ ") or op.startswith("TREQ ") or op.startswith("NREQ ") or op.startswith("IREQ ")
 
 
 def _setup_diverged(sess, R, M):
